@@ -42,6 +42,12 @@ def coq_files():
     return [os.path.relpath(f, COQ) for f in out]
 
 def ensure_makefile():
+    import fcntl
+    with open(os.path.join(COQ, ".buildlock"), "w") as lk:
+        fcntl.flock(lk, fcntl.LOCK_EX)
+        _ensure_makefile()
+
+def _ensure_makefile():
     files = coq_files()
     proj = "-Q . PV\n-arg -w -arg -notation-overridden,-deprecated-hint-without-locality,-deprecated-syntactic-definition,-ambiguous-paths,-deprecated-instance-without-locality\n" + "\n".join(files) + "\n"
     pj = os.path.join(COQ, "_CoqProject")
